@@ -207,8 +207,16 @@ def rule_rebase(ctx):
         ok = all(k in wpos for k in MAP_FIELDS) and wpos['_tempo'] > max(wpos['_base_seconds'], wpos['_base_beats']) and wpos['_beat_dur'] > wpos['_tempo']
         ctx.ob('C12.rebase', f'{f0.fq}:order', ok, f'write order must be base point, tempo, beat_dur; positions {wpos}', f.node, mod)
         src = full(f.node)
-        ok = U.before(src, 'self._beat_dur = ', 'if self.mode == _libsc3.main.NRT_MODE: _libsc3.main._clock_scheduler.rekey(self) '
-                                                'else: with self._sched_cond: self._sched_cond.notify()')
+        FOLLOW = ('if self.mode == _libsc3.main.NRT_MODE: _libsc3.main._clock_scheduler.rekey(self) '
+                  'else: with self._sched_cond: self._sched_cond.notify()')
+        ok = U.before(src, 'self._beat_dur = ', FOLLOW)
+        if not ok:
+            # ... or through a self-helper called after the last map write
+            for c in U.calls(f.node):
+                if U.is_self_attr(c.func) and not c.args:
+                    h = ctx.repo.resolve_method(ci, c.func.attr)
+                    if h is not None and FOLLOW in full(h.node) and U.before(src, 'self._beat_dur = ', norm(c)):
+                        ok = True
         ctx.ob('C12.rebase', f'{f0.fq}:notify', ok, 'after changing the map the pending tasks follow it: the RT clock thread is notified to '
                                                      'recompute its deadline, the NRT queue is re-keyed', f.node, mod)
     # the logical-time setters must not reach a physical-time read (tempo.setter / beats.setter act at the caller's logical time)
@@ -326,5 +334,8 @@ MUTANTS = [
 REPAIRS = []
 
 EQUIV = [
+    dict(name='tempo setter delegates its notify to a helper', file='sc3/base/clock.py',
+         old="        # en tempo_\n        mdl.NotificationCenter.notify(self, 'tempo')\n        if self.mode == _libsc3.main.NRT_MODE:\n            _libsc3.main._clock_scheduler.rekey(self)\n        else:\n            with self._sched_cond:\n                self._sched_cond.notify()  # NOTE: is notify_one in C++.\n\n    def etempo",
+         new="        # en tempo_\n        mdl.NotificationCenter.notify(self, 'tempo')\n        self._map_changed()\n\n    def _map_changed(self):\n        if self.mode == _libsc3.main.NRT_MODE:\n            _libsc3.main._clock_scheduler.rekey(self)\n        else:\n            with self._sched_cond:\n                self._sched_cond.notify()  # NOTE: is notify_one in C++.\n\n    def etempo"),
     dict(name='rename local of tempo.setter', file='sc3/base/clock.py', start="    def tempo(self, value):\n        '''Set", end='    def etempo(self, value):', rename=[('beats', 'now_beats')]),
 ]
